@@ -54,7 +54,11 @@ def build(tier, seed):
     set_tier(tier)
     names = list(c17.TREES)
     nrand = 6 if tier == "quick" else 40
-    tasks = [a_task(PROP, _walk), a_task(PROP, _path), a_task(PROP, _writeout), Task(f"{PROP}.S.structural", PROP, "structural", lambda: pages.structural(PROP)),
+    def _meta():
+        from contracts import metadata
+        return metadata.meta_preprocessor(PROP)
+    _meta.__name__ = "meta_preprocessor"
+    tasks = [a_task(PROP, _meta), a_task(PROP, _walk), a_task(PROP, _path), a_task(PROP, _writeout), Task(f"{PROP}.S.structural", PROP, "structural", lambda: pages.structural(PROP)),
              Task(f"{PROP}.S.template_globals", PROP, "BasePage.template", lambda: pages.template_globals_obligation(PROP, lambda: __import__("bounded.c17", fromlist=["x"]).search(nrandom=0, names=("three levels",)))),
              Task(f"{PROP}.S.location", PROP, "PageNode.__init__", lambda: pages.location_obligation(PROP, lambda: __import__("bounded.c17", fromlist=["x"]).search(nrandom=0, names=("three levels",)))),
              Task(f"{PROP}.S.encoding", PROP, "get_page_tree", lambda: pages.encoding_forwarded_obligation(PROP, lambda: __import__("bounded.c17", fromlist=["x"]).search(nrandom=0, names=("latin-1 pages",)))),
